@@ -161,9 +161,12 @@ def check_waits(chk, quick):
     _time.tzset()
 
 
-def run_task(machine, delay_ms, plan=None):
+def run_task(machine, delay_ms, plan=None, late_ms=0):
+    """`late_ms`: the start event (published at instant 0 with its StartTime) is delivered that much later"""
     scn = explore.Scenario("t", machine, {"x": 1}, {"f": plan or [("ok",)]}, {"f": delay_ms})
     s, ea, pl = scn.start()
+    if late_ms:
+        s.do(("advance", late_ms))
     g = None
     while s.steps < 3000:
         if explore.terminal_seen(s, ea) and g is None:
@@ -359,6 +362,42 @@ def check_timeouts(chk, quick):
                          {"f": [("err", "Boom", "m", 10)]}, None, "exec_timeout.retry_interval.%s" % kind_,
                          "an execution running longer than the machine's TimeoutSeconds fails with States.Timeout at exactly that instant"))
     run_directed(chk, directed)
+    # a start event delivered late (the broker was slow, the engine was down): the execution's time limit counts from the
+    # StartTime the start event carries, not from its delivery — the execution ends at StartTime + TimeoutSeconds, at once
+    # if that instant has passed; the start state's own time-out counts from its entry, which is the StartTime as well
+    for etmo in (3, 5):
+        for late in (1000, (etmo - 1) * 1000 + 500, etmo * 1000, etmo * 1000 + 2500):
+            for body in ("wait", "task", "task-timeout-catch"):
+                if body == "wait":
+                    st = {"Type": "Wait", "Seconds": etmo + 4, "End": True}
+                else:
+                    st = T("f")
+                    st["End"] = True
+                    if body == "task-timeout-catch":
+                        st["TimeoutSeconds"] = 2
+                        st["Catch"] = [{"ErrorEquals": ["States.ALL"], "Next": "C"}]
+                m = {"TimeoutSeconds": etmo, "StartAt": "S", "States": {"S": st, "C": {"Type": "Pass", "Result": "caught", "End": True}}}
+                s, ea = run_task(m, (etmo + 9) * 1000, late_ms=late)
+                fv = explore.final_view(s, ea)
+                tt = term_time(s, ea)
+                case = {"kind": "late-start-event", "TimeoutSeconds": etmo, "late_ms": late, "body": body, "machine": m}
+                chk.count(cj(case), True)
+                chk.dist("late_start.%s" % body)
+                limit = etmo * 1000
+                if body == "task-timeout-catch" and max(late, 2000) < limit:
+                    # the Task's own time-out, from its entry: the start state is entered when the execution is started (the
+                    # start event carries State.EnteredTime = StartTime), so a late delivery finds the deadline nearer or past
+                    exp = {"status": "SUCCEEDED", "error": None, "t": max(late, 2000)}
+                else:
+                    exp = {"status": "FAILED", "error": "States.Timeout", "t": max(limit, late)}
+                got = {"status": fv.get("status"), "error": fv.get("error"), "t": tt}
+                if s.errors:
+                    chk.report("impl-violates-law", case, impl={"errors": s.errors[:1]}, law="no exception escapes a handler")
+                elif got != exp:
+                    chk.report("impl-violates-law", case, impl=got, model=exp,
+                               law="the execution's time limit counts from its StartTime, however late the start event is delivered; "
+                                   "the start state's own time-out counts from its entry (= StartTime)")
+                s.close()
 
 
 def run_directed(chk, directed):
